@@ -239,6 +239,10 @@ Definition handle_meta (op : list N) (args : list sexp) : option sexp :=
                   | Some fs, Some md => Some (res_sexp unit_sexp (validate simple_is_url fs md))
                   | _, _ => None end
     | _ => None end
+  else if atom_is "meta.is_url" op then
+    match args with
+    | [u] => match getB u with Some u => Some (BA (simple_is_url u)) | None => None end
+    | _ => None end
   else if atom_is "meta.is_ready" op then
     match args with
     | [fs; md] => match getFs fs, getMeta md with
